@@ -25,8 +25,13 @@ pub const FRAME_CAP: usize = 64 << 20;
 /// Runs `src` on fresh arenas. `with_frame = false` is the documented reference
 /// configuration: one arena, nothing ever reset or reused.
 pub fn run_library(src: &str, with_frame: bool, policy: Option<HostPolicy>) -> Outcome {
-    let arena = Arena::new(ARENA_CAP).expect("arena");
-    let frame = Arena::new(FRAME_CAP).expect("frame arena");
+    run_library_caps(src, with_frame, policy, ARENA_CAP, FRAME_CAP)
+}
+
+/// The same with chosen arena capacities (a tuning knob of the embedder: the CLI uses 256 MiB each).
+pub fn run_library_caps(src: &str, with_frame: bool, policy: Option<HostPolicy>, arena_cap: usize, frame_cap: usize) -> Outcome {
+    let arena = Arena::new(arena_cap).expect("arena");
+    let frame = Arena::new(frame_cap).expect("frame arena");
     let lexer = Lexer::new(src, &arena);
     let mut parser = Parser::new(lexer, &arena);
     let (root, perr) = parser.parse_program();
